@@ -141,6 +141,30 @@ pub fn run(ctx: &Ctx) {
         let d = refmodel::eip712::Doc { types: vec![("EIP712Domain".into(), members), ("Msg".into(), sv(&[("x", "uint256")]))], primary: "Msg".into(), domain: J::Obj(dom), message: J::obj(vec![("x", J::n("7"))]) };
         check_doc(ctx, P, "undeclared-standard-domain-member", i, &format!("domain-value:undeclared-standard-member={}{}", fields[extra].0, if null { ",null" } else { "" }), &d);
     });
+    // the primary type IS the domain type: the message is then a value of type EIP712Domain and must conform to it like any
+    // other message (tools that special-case this document shape tend to look at the domain value only)
+    let mut pd: Vec<(u32, usize, usize)> = Vec::new(); let offences = 9usize;
+    for mask in [0b00001u32, 0b00101, 0b11111, 0b10100, 0b01000, 0b00110, 0b10000] { for m in 0..5usize { if mask >> m & 1 == 1 { for o in 0..offences { pd.push((mask, m, o)); } } } }
+    ctx.sweep("primary-type-is-the-domain-type", "7 selections of the standard domain fields as EIP712Domain, primaryType = EIP712Domain, a conforming domain value, and a message that breaks the type at each member in 8 ways (out of range, negative, wrong length, wrong JSON kind, null, member missing, undeclared member next to it) or conforms: an offending message is refused (a conforming one is unconstrained)", pd.len() as u64, |i| {
+        let (mask, m, o) = pd[i as usize];
+        let members: Vec<(String, String)> = (0..5).filter(|k| mask >> k & 1 == 1).map(|k| (fields[k].0.to_string(), fields[k].1.to_string())).collect();
+        let dom: Vec<(String, J)> = members.iter().map(|(n, t)| (n.clone(), crate::c20::value_for(t))).collect();
+        let (mn, mt) = fields[m]; let mut msg = dom.clone(); let at = msg.iter().position(|(n, _)| n == mn).unwrap();
+        let what = match o {
+            0 => { "conforming" }
+            1 => { msg[at].1 = match mt { "uint256" => J::Str("115792089237316195423570985008687907853269984665640564039457584007913129639936".into()), "bytes32" => J::Str(format!("0x{}", "ab".repeat(31))), "address" => J::Str(format!("0x{}", "ab".repeat(19))), _ => J::n("5") }; "out-of-range-or-short" }
+            2 => { msg[at].1 = match mt { "uint256" => J::n("-1"), "bytes32" => J::Str(format!("0x{}", "ab".repeat(33))), "address" => J::Str(format!("0x{}", "ab".repeat(21))), _ => J::Bool(true) }; "negative-or-long" }
+            3 => { msg[at].1 = J::obj(vec![("x", J::n("1"))]); "object" }
+            4 => { msg[at].1 = J::Arr(vec![]); "array" }
+            5 => { msg[at].1 = J::Null; "null" }
+            6 => { msg.remove(at); "member-missing" }
+            7 => { msg.insert(at, ("extra".to_string(), J::n("1"))); "undeclared-member" }
+            _ => { msg[at].1 = match mt { "string" => J::n("1.5"), "uint256" => J::Str("0xzz".into()), _ => J::Str("zz".into()) }; "malformed" }
+        };
+        let d = refmodel::eip712::Doc { types: vec![("EIP712Domain".into(), members)], primary: "EIP712Domain".into(), domain: J::Obj(dom), message: J::Obj(msg) };
+        let (class, why) = refmodel::eip712::evaluate(&d); let class = match class { refmodel::json::Class::Accept(x) => refmodel::json::Class::Unc(x), c => c };
+        check_json(ctx, P, "primary-type-is-the-domain-type", i, &format!("primary=domain-type:{mt}:{what}"), &d.to_json().reordered(i % 3).to_text(), (class, why));
+    });
     // a struct type that declares a member name more than once, against value objects whose member SET is wrong but whose
     // member COUNT may match the declaration (a check that counts members instead of matching them): whatever is made of
     // the repeated declaration itself, an undeclared or a missing member is refused
